@@ -8,7 +8,7 @@ from ..cfg import CFG
 from ..model import AnalysisError, Cls, Func, Repo, is_none, is_self_attr, short, walk_no_nested
 from ..report import RuleResult
 from .c02 import config_agreement
-from .common import ancestors, enclosing_stmt, norm, parents_map, exported_estimators
+from .common import rel_of, ancestors, enclosing_stmt, norm, parents_map, exported_estimators
 
 PP = "vectorizers/preprocessing.py"
 WK = "vectorizers/_window_kernels.py"
@@ -161,8 +161,11 @@ def _zeroing_before_normalise(f: Func) -> Tuple[bool, str]:
 
 def _under_mask_compare(x: ast.AST, pm) -> bool:
     for a in ancestors(x, pm):
-        if isinstance(a, ast.If) and "== mask_index" in norm(a.test):
-            return True
+        if isinstance(a, ast.If):
+            for c in ast.walk(a.test):
+                r = rel_of(c) if isinstance(c, ast.Compare) else None
+                if r and r[0] == "eq" and "mask_index" in r[1]:
+                    return True
     return False
 
 
